@@ -8,7 +8,8 @@ P=$1; K=$2; TARGET=$3; shift 3
 SRC=/tmp/seed-out/$P/$K
 DST=/verif/seeded/$P-$K
 cd /verif
-VER=$(tools/verify_seed.sh "$SRC" "$TARGET" 2>&1)
+# (VERIFY_OUT=<file>: output of an earlier tools/verify_seed.sh run for this seed, e.g. made in parallel)
+if [ -n "${VERIFY_OUT:-}" ] && [ -f "$VERIFY_OUT" ]; then VER=$(cat "$VERIFY_OUT"); else VER=$(tools/verify_seed.sh "$SRC" "$TARGET" 2>&1); fi
 echo "$VER" | tail -3
 echo "$VER" | grep -q '^CONFIRMED' || { echo "NOT CONFIRMED - not adopted"; exit 1; }
 mkdir -p "$DST"
@@ -18,9 +19,15 @@ git -C /repo apply "$DST/patch.diff" || exit 2
 DETECT=""
 EXPECT=""
 EXPMAP=""
+TMPO=$(mktemp -d)
 for Q in $P "$@"; do
-  OUT=$(./bin/jetverif -prop $Q -tier quick -repo /repo -out /tmp/vout -findings /verif/known_findings.json 2>&1); RC=$?
-  KEYS=$(echo "$OUT" | grep -o 'key=[^ ]*' | sed 's/key=//' | tr '\n' ' ')
+  ( ./bin/jetverif -prop $Q -tier quick -repo /repo -out $TMPO/out.$Q -findings /verif/known_findings.json > $TMPO/$Q.log 2>&1; echo $? > $TMPO/$Q.rc ) &
+  while [ $(jobs -r | wc -l) -ge 8 ]; do sleep 0.2; done
+done
+wait
+for Q in $P "$@"; do
+  OUT=$(cat $TMPO/$Q.log); RC=$(cat $TMPO/$Q.rc)
+  KEYS=$(echo "$OUT" | grep 'status=violated\|status=undecided\|status=unresolved' | grep -o 'key=[^ ]*' | sed 's/key=//' | tr '\n' ' ')
   echo "  check $Q rc=$RC keys: $KEYS"
   R=""; if [ $RC -eq 1 ]; then R=$(echo "$KEYS" | awk '{print $1}' | cut -d/ -f1); fi
   if [ "$Q" = "$P" ] && [ -z "$EXPECT" ]; then EXPECT=$R; fi
@@ -28,7 +35,8 @@ for Q in $P "$@"; do
   JKEYS=$(echo "$KEYS" | tr -d '"\\')
   DETECT="$DETECT{\"check\":\"$Q\",\"exit\":$RC,\"violated_keys\":\"$JKEYS\"},"
 done
-git -C /repo checkout -- .
+rm -rf $TMPO
+git -C /repo checkout -- . ; git -C /repo clean -fdq
 python3 - "$P" "$K" "$TARGET" "$DST" "[${DETECT%,}]" "$VER" "$EXPECT" "{${EXPMAP%,}}" <<'PY'
 import json,sys,re
 p,k,target,dst,det,ver,expect,expmap=sys.argv[1:9]
